@@ -549,3 +549,28 @@ def init_twice(v, other_server, third):
         if rec is None or rec.protocol_version != ans:
             return "session-version-differs-from-answer"
     return "ok"
+
+
+def dispatch_text(mi, i, where, hsel, has_id):
+    """content corpus: the i-th 'active' text as (0) the request id, (1) a tool argument, (2) the tool name / uri,
+    (3) the method name (whole), (4) the text of the handler's exception, (5) the method name with the text appended
+    to a registered name"""
+    text = _sizes.pick_text(i)
+    m = pick_method(mi)
+    if where == 0:
+        if text == "":
+            return "ok"
+        psel = 6 if m == "tools/call" else (7 if m == "resources/read" else 0)
+        return dispatch(m, True, text, psel, "v", hsel)
+    rid = 7 if has_id else None
+    if where == 1:
+        return dispatch("tools/call", has_id, rid, 6, text, hsel)
+    if where == 2:
+        return dispatch("tools/call" if mi % 2 == 0 else "resources/read", has_id, rid, 2 if mi % 2 == 0 else 5, text, hsel)
+    if where == 3:
+        if text in REQUEST_METHODS or text.startswith("notifications/"):
+            return "ok"
+        return dispatch(text, has_id, rid, 0, "v", hsel)
+    if where == 5:
+        return dispatch(m + text, has_id, rid, 0, "v", hsel)
+    return dispatch(m, has_id, rid, 6 if m == "tools/call" else (7 if m == "resources/read" else 0), "v", hsel, text)
